@@ -646,49 +646,56 @@ def getLocalTable (pd : ProcDecl) (g : GlobalTable) : Option LocalTable :=
     | _ => none
   | none => none
 
+/-- The class and modifier of the `i`-th token of a global declaration (`collect_type_dec`,
+    `collect_proc_dec`, `map_token`); `sl` = the declaration's tokens. -/
+def semClassify (d : AnalyzedSource) (gd : GlobalDecl) (sl : List Token) : Nat → Token → Option (Nat × Nat) :=
+  match gd with
+  | .type td => fun i t =>
+    let pos := td.info.range.lo + i
+    if (match td.name with | some n => n.info.range.hi == pos + 1 | none => false) then some (tyType, 1)
+    else if t.kind == .Ident then some (tyType, 0)
+    else (mapTokenClass t).map (fun c => (c, 0))
+  | .proc pd => fun i t =>
+    let pos := pd.info.range.lo + i
+    let lt := getLocalTable pd d.table
+    if (match pd.name with | some n => n.info.range.hi == pos + 1 | none => false) then some (tyFunction, 1)
+    else match t.ty with
+      | .Ident name =>
+        -- directly after `:` or `of`: a type position, only global names are visible
+        let prevTok := ((sl.take i).filter (fun t => t.kind != .Comment)).getLast?
+        let typePos : Bool := match prevTok with
+          | some t => t.kind == .Colon || t.kind == .Of
+          | none => false
+        match (if typePos then (tblLookup d.table name).map Entry.ofGlobal else lookupBoth lt d.table name) with
+        | some (.type _) => some (tyType, 0)
+        | some (.procedure _) => some (tyFunction, 0)
+        | some (.variable v) => some (tyVariable, if v.range.lo + v.name.info.range.hi == pos + 1 then 1 else 0)
+        | some (.parameter v) => some (tyParameter, if v.range.lo + v.name.info.range.hi == pos + 1 then 1 else 0)
+        | none => none
+      | _ => (mapTokenClass t).map (fun c => (c, 0))
+  | .error _ => fun _ t => (mapTokenClass t).map (fun c => (c, 0))
+
+/-- the tokens of a global declaration: `doc.tokens[offset..][info.range]` -/
+def declTokens (d : AnalyzedSource) (gd : Ref GlobalDecl) : Option (List Token) :=
+  match (allTokens d).from gd.offset with
+  | none => none
+  | some toks => (toks.sub gd.val.info.range).map (·.toList)
+
+def semanticTokensGo (d : AnalyzedSource) : List (Ref GlobalDecl) → Pos → Except Panic (List SemTok)
+  | [], _ => .ok []
+  | gd :: rest, prev =>
+    match declTokens d gd with
+    | none => .error ⟨"slice"⟩
+    | some sl =>
+      match collectToks d.text (semClassify d gd.val sl) sl 0 prev with
+      | .error e => .error e
+      | .ok (sts, prev') =>
+        match semanticTokensGo d rest prev' with
+        | .error e => .error e
+        | .ok more => .ok (sts ++ more)
+
 def semanticTokens (d : AnalyzedSource) : Except Panic (List SemTok) :=
-  let rec go : List (Ref GlobalDecl) → Pos → Except Panic (List SemTok)
-    | [], _ => .ok []
-    | gd :: rest, prev =>
-      match (allTokens d).from gd.offset with
-      | none => .error ⟨"slice"⟩
-      | some toks =>
-        let info := gd.val.info
-        match toks.sub info.range with
-        | none => .error ⟨"slice"⟩
-        | some s =>
-          let classify : Nat → Token → Option (Nat × Nat) := match gd.val with
-            | .type td => fun i t =>
-              let pos := td.info.range.lo + i
-              if (match td.name with | some n => n.info.range.hi == pos + 1 | none => false) then some (tyType, 1)
-              else if t.kind == .Ident then some (tyType, 0)
-              else (mapTokenClass t).map (fun c => (c, 0))
-            | .proc pd => fun i t =>
-              let pos := pd.info.range.lo + i
-              let lt := getLocalTable pd d.table
-              if (match pd.name with | some n => n.info.range.hi == pos + 1 | none => false) then some (tyFunction, 1)
-              else match t.ty with
-                | .Ident name =>
-                  -- directly after `:` or `of`: a type position, only global names are visible
-                  let prevTok := ((s.toList.take i).filter (fun t => t.kind != .Comment)).getLast?
-                  let typePos : Bool := match prevTok with
-                    | some t => t.kind == .Colon || t.kind == .Of
-                    | none => false
-                  match (if typePos then (tblLookup d.table name).map Entry.ofGlobal else lookupBoth lt d.table name) with
-                  | some (.type _) => some (tyType, 0)
-                  | some (.procedure _) => some (tyFunction, 0)
-                  | some (.variable v) => some (tyVariable, if v.range.lo + v.name.info.range.hi == pos + 1 then 1 else 0)
-                  | some (.parameter v) => some (tyParameter, if v.range.lo + v.name.info.range.hi == pos + 1 then 1 else 0)
-                  | none => none
-                | _ => (mapTokenClass t).map (fun c => (c, 0))
-            | .error _ => fun _ t => (mapTokenClass t).map (fun c => (c, 0))
-          match collectToks d.text classify s.toList 0 prev with
-          | .error e => .error e
-          | .ok (sts, prev') =>
-            match go rest prev' with
-            | .error e => .error e
-            | .ok more => .ok (sts ++ more)
-  go d.ast.decls ⟨0, 0⟩
+  semanticTokensGo d d.ast.decls ⟨0, 0⟩
 
 /-! ### completion.rs -/
 
